@@ -1,7 +1,8 @@
 (* C09 — The parser is total: any text yields a tree or a located error report.
    Property theorems only; proofs live in Proofs/ParseLoopP.v.
 
-   PARTIAL BY DESIGN.  The nom grammar (~5000 lines) is not modelled.  Proved here, for ALL sources and ALL leaf
+   PARTIAL.  Theorems 1-19: the nom grammar (~5000 lines) is not modelled there; theorems 20-28 (end of the file) are a
+   progress analysis of the grammar re-extracted from the parser source on every run.  Proved in 1-19, for ALL sources and ALL leaf
    parsers satisfying the explicit assumptions `leaf_ok` (cursors stay in [i, len]; code_terminal consumes nothing
    only at eof / before a mika close; subtitles, mika blocks and section elements consume >= 1 grapheme):
      - the hand-written loops mech_code / section / body terminate (fuel len+1), each iteration makes progress,
@@ -14,6 +15,7 @@
    follows the fixed code; theorem 7 records what the first of them repaired. *)
 From Coq Require Import List Arith ZArith String.
 From MechV Require Import Base.Sexp Base.Obs Model.ParseLoop Proofs.ParseLoopP.
+From MechV Require Import Model.Progress Gen.ParserGrammar Model.ProgressInst Proofs.ProgressP Proofs.ProgressInstP.
 Import ListNotations.
 Open Scope list_scope.
 
@@ -186,3 +188,93 @@ Example C09_example_judge :
     = "(bad parser-panicked ok-or-err-in-range)"%string.
 Proof. vm_compute. repeat split; reflexivity. Qed.
 Print Assumptions C09_example_judge.
+
+(* ====================================================================== *)
+(* PROGRESS ANALYSIS OF THE REAL GRAMMAR (deepening; Model/Progress.v, Proofs/ProgressP.v, Proofs/ProgressInstP.v)       *)
+(*                                                                                                                        *)
+(* translators/parser_grammar.py re-extracts the grammar of /repo/src/syntax/src/*.rs on every run (Gen/ParserGrammar.v): *)
+(* one entry per parser function; every nom repetition and every hand-written parsing loop is a *recursive* entry, with   *)
+(* nom's `input_len() == len` check explicit.  So "every loop makes progress" = "no cycle of calls without consumption". *)
+(* Theorems 20-22 are about ANY grammar, ANY oracles for the primitive leaves / unknown nodes / opaque conditions          *)
+(* (`oracle_ok`: results are suffixes, leaves marked consuming return strict suffixes) and ANY (nu, rk) passing the checks. *)
+(* Theorems 23-28 are the instance: closed by vm_compute on the grammar of the CURRENT source.                             *)
+(* ====================================================================== *)
+
+(* 20. soundness of the nullability analysis: every result is a suffix of the input; a successful run of a parser that
+       the analysis calls non-nullable returns a STRICT suffix. *)
+Theorem C09_progress_nullable_sound : forall O G nu, oracle_ok O -> nu_bad nu G = [] ->
+  forall n p i r, evalp O G all_on n p i = Some r ->
+    suffix (pos r) i /\ (is_ok r = true -> nullp nu p = false -> strict_suffix (pos r) i).
+Proof. exact nullable_sound. Qed.
+Print Assumptions C09_progress_nullable_sound.
+
+(* 21. termination with an explicit depth bound: if no entry can reach itself through calls made before anything is
+       consumed (rank_bad = []), evaluation of ANY parser expression over the grammar on ANY input never runs out of fuel
+       once the fuel (recursion depth) exceeds (|input| + 1) * (1 + max rank) * (1 + max body size) + size. *)
+Theorem C09_progress_terminates : forall O G nu rk, oracle_ok O -> nu_bad nu G = [] -> rank_bad nu rk G = [] ->
+  forall p i n, (List.length i + 1) * (S (max_rank rk G) * S (max_size G)) + sizep p < n ->
+    exists r, evalp O G all_on n p i = Some r.
+Proof. exact eval_terminates. Qed.
+Print Assumptions C09_progress_terminates.
+
+(* 22. nom's infinite-loop guards: removing every guard that the analysis does not list as live changes no result
+       (gd site = false removes the guard of that repetition). *)
+Theorem C09_progress_guards_dead : forall O G nu gd, oracle_ok O -> nu_bad nu G = [] ->
+  (forall site, In site (guards_live nu G) -> gd site = true) ->
+  forall n f i, evalp O G gd n (PCall f) i = evalp O G all_on n (PCall f) i.
+Proof. exact guards_dead. Qed.
+Print Assumptions C09_progress_guards_dead.
+
+(* 23. THE OBLIGATION ON THE CURRENT SOURCE.  With the two hand-written recovery loops of Model/ProgressInst.v
+       (mech_code's and section's `loop`, covered by theorems 2-6 above) replaced by assumed leaves, the analysis of the
+       extracted grammar reports: nu consistent, NO call cycle without consumption (no left recursion, every other loop
+       — nom repetition or hand-written — advances or stops), and exactly the two allow-listed nom guards that may fire.
+       A change that removes a consuming token from a loop body, makes a recovery path succeed without progress or
+       introduces left recursion makes this theorem fail (tools/c09_selftest.py demonstrates it on nine mutants). *)
+Theorem C09_parser_loops_guarded :
+  analyse grammar_cut = {| r_nu_bad := []; r_cycles := []; r_guards := guards_allowed |}.
+Proof. exact cut_analysis. Qed.
+Print Assumptions C09_parser_loops_guarded.
+
+(* 24. on the grammar as extracted (nothing assumed) the entries that lie on a cycle of calls-before-consumption are
+       exactly the two assumed loops: nothing else hides behind the cut. *)
+Theorem C09_parser_cycles_only_assumed : same_set (on_cycle (compute_nu grammar) grammar) cycles_expected = true.
+Proof. exact uncut_cycles. Qed.
+Print Assumptions C09_parser_cycles_only_assumed.
+
+(* 25. what the translator could not read is explicit and confined to four functions (a fence parser chosen at run
+       time; three loops over constant tables in mika.rs); unknown nodes are oracles that are never assumed to consume. *)
+Theorem C09_parser_unknown_nodes : same_set (unknown_fns grammar) unknown_expected = true.
+Proof. exact unknown_as_expected. Qed.
+Print Assumptions C09_parser_unknown_nodes.
+
+(* 26. hence every parser function of the current source terminates on every input, at depth <= (|input|+1) * rank_bound *
+       size_bound + 1 (rank_bound, size_bound: Model/ProgressInst.v; 25 and 227 for the tree this was written against),
+       under oracle_ok for the primitive leaves, the unknown nodes and the two assumed loops. *)
+Theorem C09_parser_terminates : forall O, oracle_ok O -> forall f i n,
+  (List.length i + 1) * (rank_bound * size_bound) + 1 < n -> exists r, evalp O grammar_cut all_on n (PCall f) i = Some r.
+Proof. exact parser_terminates. Qed.
+Print Assumptions C09_parser_terminates.
+
+(* 27. the parsers that the hand-written loops rely on to consume (assumed as lo_ul / lo_mika / lo_title .. in theorem 2-6's
+       leaf_ok) are non-nullable in the extracted grammar: a successful run returns a strict suffix. *)
+Theorem C09_parser_consuming_entries : forall O, oracle_ok O -> forall f, In f must_consume -> forall n i j,
+  evalp O grammar_cut all_on n (PCall f) i = Some (ROk j) -> strict_suffix j i.
+Proof. exact must_consume_consumes. Qed.
+Print Assumptions C09_parser_consuming_entries.
+
+(* 28. of the 173 nom repetitions of the current source, all but the two allow-listed ones have a dead guard: the parser
+       behaves identically with those guards removed (so its termination does not rest on them). *)
+Theorem C09_parser_other_guards_dead : forall O, oracle_ok O -> forall n f i,
+  evalp O grammar_cut gd_allowed n (PCall f) i = evalp O grammar_cut all_on n (PCall f) i.
+Proof. exact other_guards_dead. Qed.
+Print Assumptions C09_parser_other_guards_dead.
+
+(* the hypotheses are satisfiable, and the evaluator runs the extracted grammar *)
+Example C09_progress_oracle_exists : oracle_ok fail_oracle /\ oracle_ok eat_oracle.
+Proof. exact (conj fail_oracle_ok eat_oracle_ok). Qed.
+Print Assumptions C09_progress_oracle_exists.
+
+Example C09_progress_comma_runs : evalp eat_oracle grammar_cut all_on 20 (PCall "comma"%string) [44] = Some (ROk []).
+Proof. exact comma_runs. Qed.
+Print Assumptions C09_progress_comma_runs.
